@@ -376,6 +376,109 @@ def find_case(run):
         run.violation('find_move can panic: %s' % ob, {})
 
 
+def findb_case(run, L):
+    """find_move at byte level: a symbolic word of L bytes against n candidate legal moves; the real to_notation (format model)
+    or whatever decoding the implementation uses is executed"""
+    from . import fmtmodel
+    name = 'FIND-BYTES/len%d' % L
+    ex = run.executor()
+    fmtmodel.install(ex)
+    n = 3
+    word = [z3.BitVec('w%d' % i, 8) for i in range(L)]
+    plies, gs, encs = [], [], []
+    for i in range(n):
+        p = B.SymPly('lm%d' % i, piece=B.KNIGHT, color=0, free_flags=True)
+        v = list(p.value())
+        promo_some = z3.Bool('lm%d_promotes' % i)
+        promo_kind = z3.BitVec('lm%d_promo_kind' % i, 64)
+        v[4] = Enum(z3.If(promo_some, z3.BitVecVal(1, 64), z3.BitVecVal(0, 64)),
+                    {1: (Enum(promo_kind, {k: (B.color_v(z3.BitVec('lm%d_promo_col' % i, 64)),) for k in range(6)}),), 0: ()})
+        ex.assume(z3.And(z3.UGE(promo_kind, 2), z3.ULE(promo_kind, 5)))
+        for x in (p.sr, p.sf, p.dr, p.df):
+            ex.assume(z3.ULT(x, 8))
+        B8 = lambda k: z3.BitVecVal(k, 8)
+        suffix = z3.If(promo_kind == 2, B8(113), z3.If(promo_kind == 3, B8(114), z3.If(promo_kind == 4, B8(98), B8(110))))
+        enc = [p.sf + 97, p.sr + 49, p.df + 97, p.dr + 49]
+        if L == 4:
+            same = z3.And(z3.Not(promo_some), *[word[k] == enc[k] for k in range(4)])
+        elif L == 5:
+            same = z3.And(promo_some, word[4] == suffix, *[word[k] == enc[k] for k in range(4)])
+        else:
+            same = z3.BoolVal(False)
+        plies.append(tuple(v))
+        gs.append(z3.Bool('lm%d_present' % i))
+        encs.append(same)
+    ex.override('board::Board::get_legal_moves', lambda ctx, bp: Seq(tuple((gs[i], plies[i]) for i in range(n))))
+    ex.enable_pruning(timeout_ms=2000)
+    ex.prune_mode = 'all'
+    st = State()
+    bp = ex.alloc(st, Opaque('Board'))
+    r = ex.call('board::Board::find_move', [bp, fmtmodel.SymStr(tuple((True, w) for w in word))], ['&mut board::Board', '&str'], 'std::result::Result<board::ply::Ply, &str>', st, 'harness')
+    run.absorb(ex)
+    res, st2 = r
+    hit = [z3.And(gs[i], encs[i]) for i in range(n)]
+    bad = [(bv(res.d) == 0) != z3.Or(*hit)]
+    if 0 in res.pay:
+        got = dict(B.ply_terms(res.pay[0][0]))
+        for i in range(n):
+            first = z3.And(hit[i], *[z3.Not(h) for h in hit[:i]])
+            want = dict(B.ply_terms(plies[i]))
+            bad.append(z3.And(first, z3.Or(*[got[k] != want[k] for k in want if k in got and got[k] is not None and want[k] is not None])))
+    if L in (4, 5) and not run.witness(name, ex.pre + [zb(st2.guard), hit[1], z3.Not(hit[0])]):
+        return
+    q = run.decide(name, ex.pre + [zb(st2.guard), z3.Or(*bad)], kind='smt',
+                   note='for every %d-byte word: find_move == Ok(first legal move whose coordinate string is the word), Err if none' % L)
+    if q.verdict == 'sat':
+        m = q.model
+        w = bytes(m.eval(x, model_completion=True).as_long() for x in word)
+        cands = []
+        for i in range(n):
+            if z3.is_true(m.eval(gs[i], model_completion=True)):
+                p = plies[i]
+                ev = lambda t: m.eval(bv(t), model_completion=True).as_long()
+                cands.append('abcdefgh'[ev(p[0][1])] + str(ev(p[0][0]) + 1) + 'abcdefgh'[ev(p[1][1])] + str(ev(p[1][0]) + 1))
+        ok_ = m.eval(bv(res.d) == 0, model_completion=True)
+        replay_find(run, name, w, cands, z3.is_true(ok_))
+    for ob, qq in run.check_obligations(ex, name, kinds=('panic', 'unwind', 'unreachable', 'model-limit')):
+        run.violation('%s: find_move can panic / leaves the modelled fragment: %s' % (name, ob), {'case': name})
+
+
+def replay_find(run, name, word, cands, accepted):
+    """replay on the real engine: the start position, is the word accepted by `position startpos moves <word>`?"""
+    try:
+        w = word.decode('ascii')
+    except Exception:
+        w = None
+    shown = w if w is not None and w.isprintable() and ' ' not in w else repr(word)
+    # search the start position for an instance: any word with the same shape that names no legal move but is accepted
+    from .c09 import real_engine
+    legal_start = {a + '2' + a + r for a in 'abcdefgh' for r in '34'} | {'b1a3', 'b1c3', 'g1f3', 'g1h3'}
+    probes = [w] if w else []
+    # transfer the counterexample to the start position: apply the byte-wise difference between the model's word and
+    # the notation of each of its candidate moves to the notations of the start position's legal moves
+    for c in cands:
+        if len(word) < 4:
+            continue
+        delta = [word[k] - ord(c[k]) for k in range(4)]
+        for lm in sorted(legal_start):
+            pw = ''.join(chr((ord(lm[k]) + delta[k]) & 0xff) for k in range(4)) + ''.join(chr(b) for b in word[4:])
+            if pw not in probes and pw not in legal_start:
+                probes.append(pw)
+    probes += ['a2a4q', 'a2a5', 'e2e4x', 'E2E4', 'e2e', 'e2e4e5']      # generic malformed words
+    for pw in probes:
+        if not pw or not pw.isascii() or not pw.isprintable() or ' ' in pw:
+            continue
+        out, err = real_engine(run, ['position startpos moves ' + pw, 'go depth 1'], wait=1.0)
+        bm = [l.split()[1] for l in out.split('\n') if l.startswith('bestmove') and len(l.split()) > 1]
+        black_reply = bool(bm) and bm[0][1] in '78'          # the engine answers for Black <=> the word was accepted and played
+        if black_reply != (pw in legal_start):
+            run.violation('%s: `position startpos moves %s` is %s by the real engine although the word %s' % (
+                name, pw, 'accepted' if black_reply else 'refused', 'names a legal move' if pw in legal_start else 'names no legal move'),
+                {'cmd': 'uci', 'lines': ['position startpos moves ' + pw, 'go depth 1'], 'bestmove': bm})
+            return
+    run.inconclusive.append('%s: solver counterexample (word %s, candidates %s, accepted=%s) not reproduced on the real engine from the start position' % (name, shown, cands, accepted))
+
+
 def worker(run, job):
     kind = job[0]
     if kind == 'PARSE':
@@ -388,6 +491,8 @@ def worker(run, job):
         newgame_case(run)
     elif kind == 'FIND':
         find_case(run)
+    elif kind == 'FINDB':
+        findb_case(run, job[1])
     elif kind == 'NOTATION':
         from . import fmtmodel
         fmtmodel.notation_case(run)
@@ -414,7 +519,7 @@ def check(run, replay=None):
     alphabet = ['N', 0, 1, 2]
     for h in range(1, H + 1):
         jobs += [('SESSION', seq) for seq in itertools.product(alphabet, repeat=h) if seq[-1] != 'N' or h == 1]
-    jobs += [('NEWGAME',), ('FIND',), ('NOTATION',)]
+    jobs += [('NEWGAME',), ('FIND',), ('NOTATION',)] + [('FINDB', L) for L in (3, 4, 5, 6)]
     run.bounds.append('sessions of <= %d position/ucinewgame commands from Uci::new(), <= 2 moves each' % H)
     run.bounds.append('position lines of <= %d tokens; <= %d moves in load_position; find_move over 4 candidate legal moves' % (N, K))
     run.outside += ['stdin/stdout framing', 'the legal move set (C01) and make_move (C03) themselves', 'FEN parsing (C07)']
